@@ -6,6 +6,7 @@
 -/
 import Gama.Model.EnvHist
 import Gama.Lemmas.EnvState
+import Gama.Lemmas.EnvCfg
 namespace Gama.C04
 open Gama Gama.MTF
 
@@ -14,18 +15,18 @@ def HOp.Valid : HOp → Prop
   | .resetNew inp' => inp'.Pos
 
 /-- invariant of the multi-input machine: the single-input invariant for the CURRENT input -/
-def HInv (h : HState) : Prop := h.inp.Pos ∧ Inv h.inp h.s
+def HInv (h : HState) : Prop := h.inp.Pos ∧ Inv h.inp h.s ∧ MD h.inp h.s
 
 /-- a new object given `inp`, regularisation list `m` configured -/
 def hinit (inp : EnvInput) (m : Option (List Nat)) : HState := ⟨inp, init m⟩
 
 theorem hinv_init {inp : EnvInput} (hp : inp.Pos) (m : Option (List Nat)) : HInv (hinit inp m) :=
-  ⟨hp, inv_init inp m⟩
+  ⟨hp, inv_init inp m, fun hd => by simp [hinit, init, setStage] at hd⟩
 
 theorem hstep_inv {h : HState} (hi : HInv h) (o : HOp) (hv : o.Valid) : HInv (hstep h o).1 := by
   cases o with
-  | q op => exact ⟨hi.1, (step_spec hi.2 hi.1 op hv).1⟩
-  | resetNew inp' => exact ⟨hv, inv_reset hi.2⟩
+  | q op => exact ⟨hi.1, (step_spec hi.2.1 hi.1 op hv).1, (step_cfg h.inp h.s op hi.2.2).1⟩
+  | resetNew inp' => exact ⟨hv, inv_reset hi.2.1, (reset_md inp' h.s).1⟩
 
 theorem hrun_inv {h : HState} (hi : HInv h) {ops : List HOp} (hops : ∀ o ∈ ops, o.Valid) :
     HInv (hrun h ops) := by
@@ -37,11 +38,48 @@ theorem hrun_inv {h : HState} (hi : HInv h) {ops : List HOp} (hops : ∀ o ∈ o
 
 theorem hstep_eq_fresh {h : HState} (hi : HInv h) (op : Op) (hv : op.Valid) :
     (hstep h (.q op)).2 = fresh h.inp h.s.minx op :=
-  step_eq_fresh hi.2 hi.1 op hv
+  step_eq_fresh hi.2.1 hi.1 op hv
 
 theorem hstep_spec {h : HState} (hi : HInv h) (op : Op) (hv : op.Valid) :
     (hstep h (.q op)).2 = spec h.inp (eff h.inp h.s.minx) op :=
-  (step_spec hi.2 hi.1 op hv).2
+  (step_spec hi.2.1 hi.1 op hv).2
+
+theorem fresh_eq_spec (inp : EnvInput) (hp : inp.Pos) (m : Option (List Nat)) (op : Op) (hv : op.Valid) :
+    fresh inp m op = spec inp (eff inp m) op := by
+  unfold fresh
+  rw [(step_spec (inv_init inp m) hp op hv).2]
+  simp [init, setStage]
+
+/-- the answer is that of a brand-new object with the CALLER's configuration `cfg` (`none` = all parameters,
+    or the list given to `min_x(n, list)`) — whatever `solve_x` materialised in between -/
+theorem hstep_eq_fresh_cfg {h : HState} (hi : HInv h) (op : Op) (hv : op.Valid) :
+    (hstep h (.q op)).2 = fresh h.inp (cfg h.s) op := by
+  rw [hstep_spec hi op hv, fresh_eq_spec h.inp hi.1 _ op hv, eff_cfg hi.2.2]
+
+/-- the configuration the caller's calls leave: the last `min_x…` of the history (resets do not count) -/
+def lastCfg (c : Option (List Nat)) : List HOp → Option (List Nat)
+  | [] => c
+  | .q op :: os => lastCfg (nextCfg c op) os
+  | .resetNew _ :: os => lastCfg c os
+
+theorem hrun_cfg {h : HState} (hi : HInv h) {ops : List HOp} (hops : ∀ o ∈ ops, o.Valid) :
+    cfg (hrun h ops).s = lastCfg (cfg h.s) ops := by
+  induction ops generalizing h with
+  | nil => rfl
+  | cons o ops ih =>
+    have hi' := hstep_inv hi o (hops o (List.mem_cons_self ..))
+    have := ih hi' (fun o' ho' => hops o' (List.mem_cons_of_mem _ ho'))
+    show cfg (hrun (hstep h o).1 ops).s = _
+    rw [this]
+    cases o with
+    | q op =>
+      show lastCfg (cfg (step h.inp h.s op).1) ops = lastCfg (nextCfg (cfg h.s) op) ops
+      rw [(step_cfg h.inp h.s op hi.2.2).2]
+    | resetNew inp' =>
+      show lastCfg (cfg (reset h.s)) ops = lastCfg (cfg h.s) ops
+      rw [(reset_md inp' h.s).2]
+
+theorem cfg_init (m : Option (List Nat)) : cfg (init m) = m := by simp [cfg, init, setStage]
 
 /-- the single-input run is the multi-input run without `resetNew` -/
 theorem hrun_q (inp : EnvInput) (s : EnvState) (ops : List Op) :
@@ -49,5 +87,13 @@ theorem hrun_q (inp : EnvInput) (s : EnvState) (ops : List Op) :
   induction ops generalizing s with
   | nil => rfl
   | cons o ops ih => exact ih _
+
+/-- the invariants along a single-input run -/
+theorem run_hinv (inp : EnvInput) (hp : inp.Pos) (m0 : Option (List Nat)) (ops : List Op)
+    (hops : ∀ o ∈ ops, o.Valid) : HInv ⟨inp, run inp (init m0) ops⟩ := by
+  have := hrun_inv (hinv_init hp m0) (ops := ops.map .q)
+    (by intro o ho; obtain ⟨o', ho', rfl⟩ := List.mem_map.mp ho; exact hops o' ho')
+  rw [hinit, hrun_q] at this
+  exact this
 
 end Gama.C04
